@@ -1,3 +1,671 @@
+/-
+  Helper lemmas for C15 (runtime varint helpers vs. protowire).
+-/
 import Pulsar.Runtime
 namespace Pulsar
+
+/-! ## bitLen / sov / soz -/
+
+theorem bitLen_zero : bitLen 0 = 0 := by rw [bitLen]; simp
+
+theorem bitLen_pos {n : Nat} (h : n ≠ 0) : bitLen n = bitLen (n / 2) + 1 := by
+  rw [bitLen]; simp [h]
+
+theorem bitLen_le_of_lt_two_pow : ∀ (k n : Nat), n < 2 ^ k → bitLen n ≤ k := by
+  intro k
+  induction k with
+  | zero => intro n h; have : n = 0 := by simpa using h
+            subst this; rw [bitLen_zero]; exact Nat.le_refl 0
+  | succ k ih =>
+    intro n h
+    by_cases hn : n = 0
+    · subst hn; rw [bitLen_zero]; omega
+    · rw [bitLen_pos hn]
+      have : n / 2 < 2 ^ k := by rw [Nat.pow_succ] at h; omega
+      have := ih _ this
+      omega
+
+theorem bitLen_ge_128 {n : Nat} (h : 128 ≤ n) : bitLen n = bitLen (n / 128) + 7 := by
+  rw [bitLen_pos (n := n) (by omega), bitLen_pos (n := n / 2) (by omega),
+    bitLen_pos (n := n / 2 / 2) (by omega), bitLen_pos (n := n / 2 / 2 / 2) (by omega),
+    bitLen_pos (n := n / 2 / 2 / 2 / 2) (by omega),
+    bitLen_pos (n := n / 2 / 2 / 2 / 2 / 2) (by omega),
+    bitLen_pos (n := n / 2 / 2 / 2 / 2 / 2 / 2) (by omega)]
+  have : n / 2 / 2 / 2 / 2 / 2 / 2 / 2 = n / 128 := by omega
+  rw [this]
+
+theorem or_one_ne_zero (x : Nat) : x ||| 1 ≠ 0 := by
+  intro h
+  have := Nat.or_eq_zero_iff.mp h
+  omega
+
+theorem or_one_div_two (x : Nat) : (x ||| 1) / 2 = x / 2 := by
+  rw [Nat.or_div_two]; simp
+
+theorem bitLen_or_one_of_ne_zero {x : Nat} (h : x ≠ 0) : bitLen (x ||| 1) = bitLen x := by
+  rw [bitLen_pos (or_one_ne_zero x), or_one_div_two, bitLen_pos h]
+
+theorem sov_lt_128 {x : Nat} (h : x < 128) : sov x = 1 := by
+  unfold sov
+  have h1 : x ||| 1 < 2 ^ 7 := Nat.or_lt_two_pow (by omega) (by omega)
+  have h2 := bitLen_le_of_lt_two_pow 7 _ h1
+  have h3 := bitLen_pos (or_one_ne_zero x)
+  omega
+
+theorem sov_ge_128 {x : Nat} (h : 128 ≤ x) : sov x = sov (x / 128) + 1 := by
+  unfold sov
+  rw [bitLen_or_one_of_ne_zero (x := x) (by omega),
+    bitLen_or_one_of_ne_zero (x := x / 128) (by omega), bitLen_ge_128 h]
+  omega
+
+theorem sov_pos (x : Nat) : 0 < sov x := by
+  by_cases h : x < 128
+  · rw [sov_lt_128 h]; omega
+  · rw [sov_ge_128 (by omega)]; omega
+
+theorem varint_lt_128 {x : Nat} (h : x < 128) : varint x = [x.toUInt8] := by
+  rw [varint]; simp [h]
+
+theorem varint_ge_128 {x : Nat} (h : 128 ≤ x) :
+    varint x = (x % 128 + 128).toUInt8 :: varint (x / 128) := by
+  rw [varint]; simp [Nat.not_lt.mpr h]
+
+theorem sov_eq_varint_length (x : Nat) : sov x = (varint x).length := by
+  induction x using Nat.strongRecOn with
+  | _ x ih =>
+    by_cases h : x < 128
+    · rw [sov_lt_128 h, varint_lt_128 h]; rfl
+    · have h' : 128 ≤ x := by omega
+      rw [sov_ge_128 h', varint_ge_128 h', ih (x / 128) (by omega)]; rfl
+
+theorem sov_300 : sov 300 = 2 := by
+  rw [sov_eq_varint_length, varint_ge_128 (by omega), varint_lt_128 (by omega)]; rfl
+
+theorem xor_two_pow_sub_one {y n : Nat} (h : y < 2 ^ n) : y ^^^ (2 ^ n - 1) = 2 ^ n - (y + 1) := by
+  apply Nat.eq_of_testBit_eq
+  intro i
+  rw [Nat.testBit_xor, Nat.testBit_two_pow_sub_one, Nat.testBit_two_pow_sub_succ h]
+  by_cases hi : i < n
+  · simp [hi]
+  · have : y < 2 ^ i := Nat.lt_of_lt_of_le h (Nat.pow_le_pow_right (by omega) (by omega))
+    simp [hi, Nat.testBit_lt_two_pow this]
+
+theorem soz_arg_eq_zigzag64 (x : Nat) (hx : x < 18446744073709551616) :
+    ((x * 2) % 18446744073709551616) ^^^
+      (if x < 9223372036854775808 then 0 else 18446744073709551615) = zigzag64 x := by
+  unfold zigzag64
+  by_cases h : x < 9223372036854775808
+  · simp only [h, if_true, Nat.xor_zero]; omega
+  · simp only [h, if_false]
+    have hy : (x * 2) % 18446744073709551616 < 2 ^ 64 := by omega
+    have := xor_two_pow_sub_one hy
+    simp only [show (2:Nat) ^ 64 = 18446744073709551616 from by decide,
+      show 18446744073709551616 - 1 = 18446744073709551615 from by decide] at this
+    rw [this]; omega
+
+theorem soz_eq_varint_length (x : Nat) (hx : x < 18446744073709551616) :
+    soz x = (varint (zigzag64 x)).length := by
+  unfold soz
+  rw [soz_arg_eq_zigzag64 x hx, sov_eq_varint_length]
+
+/-! ## encodeVarint -/
+
+theorem setAt_neg (d : Bytes) (i : Int) (b : UInt8) (h : i < 0) : setAt d i b = .panic := by
+  simp [setAt, h]
+
+theorem setAt_nat (d : Bytes) (p : Nat) (b : UInt8) :
+    setAt d (p : Int) b = if p < d.length then .ok (d.set p b) else .panic := by
+  have : ¬ ((p : Int) < 0) := by omega
+  simp [setAt, this]
+
+theorem encodeVarintLoop_neg (d : Bytes) (i : Int) (v : Nat) (h : i < 0) :
+    encodeVarintLoop d i v = .panic := by
+  rw [encodeVarintLoop]
+  split
+  · exact setAt_neg _ _ _ h
+  · rw [setAt_neg _ _ _ h]
+
+theorem set_eq_take_cons_drop (d : Bytes) (p : Nat) (b : UInt8) (h : p < d.length) :
+    d.set p b = d.take p ++ [b] ++ d.drop (p + 1) := by
+  rw [List.set_eq_take_append_cons_drop]; simp [h]
+
+theorem encodeVarintLoop_nat (v : Nat) : ∀ (d : Bytes) (p : Nat),
+    encodeVarintLoop d (p : Int) v =
+      if p + sov v ≤ d.length then .ok (d.take p ++ varint v ++ d.drop (p + sov v)) else .panic := by
+  induction v using Nat.strongRecOn with
+  | _ v ih =>
+    intro d p
+    by_cases h : v < 128
+    · rw [encodeVarintLoop, dif_pos h, setAt_nat, sov_lt_128 h, varint_lt_128 h]
+      by_cases hp : p < d.length
+      · rw [if_pos hp, if_pos (by omega), set_eq_take_cons_drop d p _ hp]
+      · rw [if_neg hp, if_neg (by omega)]
+    · have h' : 128 ≤ v := by omega
+      rw [encodeVarintLoop, dif_neg h, setAt_nat, sov_ge_128 h', varint_ge_128 h']
+      by_cases hp : p < d.length
+      · rw [if_pos hp]
+        simp only []
+        have hc : ((p : Int) + 1) = ((p + 1 : Nat) : Int) := by omega
+        rw [hc, ih (v / 128) (by omega), List.length_set]
+        by_cases hq : p + 1 + sov (v / 128) ≤ d.length
+        · rw [if_pos hq, if_pos (by omega)]
+          have e1 : List.take (p + 1) (d.set p (v % 128 + 128).toUInt8)
+              = d.take p ++ [(v % 128 + 128).toUInt8] := by
+            rw [List.take_succ_eq_append_getElem (by rw [List.length_set]; exact hp),
+              List.take_set_of_le (Nat.le_refl p), List.getElem_set_self]
+          have e2 : List.drop (p + 1 + sov (v / 128)) (d.set p (v % 128 + 128).toUInt8)
+              = d.drop (p + 1 + sov (v / 128)) := List.drop_set_of_lt (by omega)
+          rw [e1, e2]
+          have e3 : p + (sov (v / 128) + 1) = p + 1 + sov (v / 128) := by omega
+          rw [e3]; simp
+        · rw [if_neg hq, if_neg (by omega)]
+      · rw [if_neg hp, if_neg (by have := sov_pos (v / 128); omega)]
+
+theorem encodeVarint_spec (d : Bytes) (off v : Nat) :
+    encodeVarint d off v =
+      if sov v ≤ off ∧ off ≤ d.length
+      then .ok (d.take (off - sov v) ++ varint v ++ d.drop off, ((off - sov v : Nat) : Int))
+      else .panic := by
+  unfold encodeVarint
+  by_cases hs : sov v ≤ off
+  · have hb : ((off : Int) - (sov v : Int)) = ((off - sov v : Nat) : Int) := by omega
+    simp only [hb]
+    rw [encodeVarintLoop_nat]
+    have e : off - sov v + sov v = off := by omega
+    rw [e]
+    by_cases hl : off ≤ d.length
+    · simp [hs, hl]
+    · simp [hl]
+  · have hb : ((off : Int) - (sov v : Int)) < 0 := by omega
+    simp only []
+    rw [encodeVarintLoop_neg _ _ _ hb]
+    simp [hs]
+
+/-! ## skip: one-iteration normal form -/
+
+/-- The `switch wireType` of `runtime.Skip`, after the tag has been read. -/
+def skipAfter (rest1 : Bytes) (consumed1 wt depth : Nat) : Res (Bytes × Nat × Nat) :=
+  if wt = 0 then
+    match skipReadVarint 0 0 rest1 with
+    | .ok (_, m, r) => .ok (r, consumed1 + m, depth)
+    | .err e => .err e
+    | .panic => .panic
+  else if wt = 1 then .ok (rest1.drop 8, consumed1 + 8, depth)
+  else if wt = 2 then
+    match skipReadVarint 0 0 rest1 with
+    | .ok (len, m, r) =>
+      if len ≥ 9223372036854775808 then .err .invalidLength
+      else .ok (r.drop len, consumed1 + m + len, depth)
+    | .err e => .err e
+    | .panic => .panic
+  else if wt = 3 then .ok (rest1, consumed1, depth + 1)
+  else if wt = 4 then
+    if depth = 0 then .err .endGroup else .ok (rest1, consumed1, depth - 1)
+  else if wt = 5 then .ok (rest1.drop 4, consumed1 + 4, depth)
+  else .err .illegalWire
+
+theorem skipLoop_succ (fuel : Nat) (rest : Bytes) (c depth : Nat) :
+    skipLoop (fuel + 1) rest c depth =
+      if rest = [] then .err .eof else
+      match skipReadVarint 0 0 rest with
+      | .err e => .err e
+      | .panic => .panic
+      | .ok (wire, n, rest1) =>
+        match skipAfter rest1 (c + n) (wire % 8) depth with
+        | .err e => .err e
+        | .panic => .panic
+        | .ok (rest2, c2, d2) =>
+          if c2 ≥ 9223372036854775808 then .err .invalidLength
+          else if d2 = 0 then .ok c2
+          else skipLoop fuel rest2 c2 d2 := by
+  rfl
+
+/-! ## skipReadVarint -/
+
+theorem skipReadVarint_ne_panic (bs : Bytes) : ∀ k acc, skipReadVarint k acc bs ≠ .panic := by
+  induction bs with
+  | nil => intro k acc; simp [skipReadVarint]
+  | cons b tl ih =>
+    intro k acc
+    rw [skipReadVarint]
+    split
+    · simp
+    · simp only []
+      split
+      · simp
+      · split
+        · simp
+        · exact ih _ _
+
+theorem skipReadVarint_count (bs : Bytes) : ∀ k acc v n rest,
+    skipReadVarint k acc bs = .ok (v, n, rest) → n + rest.length = k + bs.length ∧ k < n := by
+  induction bs with
+  | nil => intro k acc v n rest h; simp [skipReadVarint] at h
+  | cons b tl ih =>
+    intro k acc v n rest h
+    rw [skipReadVarint] at h
+    split at h
+    · simp at h
+    · simp only [] at h
+      split at h
+      · simp only [Res.ok.injEq, Prod.mk.injEq] at h
+        obtain ⟨_, rfl, rfl⟩ := h
+        simp only [List.length_cons]; omega
+      · split at h
+        · simp at h
+        · have := ih _ _ _ _ _ h
+          simp only [List.length_cons]; omega
+
+theorem varint_acc_bound {k acc x : Nat} (hacc : acc < 2 ^ (7 * k)) (hx : x < 128) :
+    acc + x * 2 ^ (7 * k) < 2 ^ (7 * (k + 1)) := by
+  have e : 2 ^ (7 * (k + 1)) = 128 * 2 ^ (7 * k) := by
+    rw [Nat.mul_add, Nat.pow_add]; simp [Nat.mul_comm]
+  have : x * 2 ^ (7 * k) ≤ 127 * 2 ^ (7 * k) := Nat.mul_le_mul_right _ (by omega)
+  rw [e]; omega
+
+theorem consumeVarintAux_skip (bs : Bytes) : ∀ k shift acc v rest,
+    shift = 7 * k → k ≤ 9 → acc < 2 ^ (7 * k) →
+    consumeVarintAux k shift acc bs = .ok (v, rest) →
+    ∃ n, skipReadVarint k acc bs = .ok (v, n, rest) := by
+  induction bs with
+  | nil => intro k shift acc v rest _ _ _ h; simp [consumeVarintAux] at h
+  | cons b tl ih =>
+    intro k shift acc v rest hs hk hacc h
+    subst hs
+    have hb : b.toNat < 256 := UInt8.toNat_lt b
+    rw [consumeVarintAux] at h
+    rw [skipReadVarint]
+    have hk10 : ¬ (k ≥ 10) := by omega
+    simp only [hk10, if_false]
+    split at h
+    · -- tenth byte
+      rename_i hk9
+      subst hk9
+      split at h
+      · rename_i hb2
+        simp only [Res.ok.injEq, Prod.mk.injEq] at h
+        obtain ⟨rfl, rfl⟩ := h
+        have hb128 : b.toNat < 128 := by omega
+        simp only [hb128, if_true]
+        have hm : b.toNat % 128 = b.toNat := by omega
+        rw [hm]
+        have : acc + b.toNat * 2 ^ (7 * 9) < 18446744073709551616 := by
+          simp only [Nat.reduceMul, Nat.reducePow] at hacc ⊢; omega
+        rw [Nat.mod_eq_of_lt this]
+        exact ⟨_, rfl⟩
+      · simp at h
+    · rename_i hk9
+      have hk8 : k + 1 ≤ 9 := by omega
+      have hP : 2 ^ (7 * (k + 1)) ≤ 18446744073709551616 := by
+        have : 2 ^ (7 * (k + 1)) ≤ 2 ^ 64 := Nat.pow_le_pow_right (by omega) (by omega)
+        simpa using this
+      have hbound := varint_acc_bound (k := k) (acc := acc) (x := b.toNat % 128) hacc (by omega)
+      have hmod : (acc + b.toNat % 128 * 2 ^ (7 * k)) % 18446744073709551616
+          = acc + b.toNat % 128 * 2 ^ (7 * k) := Nat.mod_eq_of_lt (by omega)
+      rw [hmod]
+      split at h
+      · rename_i hb128
+        simp only [Res.ok.injEq, Prod.mk.injEq] at h
+        obtain ⟨rfl, rfl⟩ := h
+        simp only [hb128, if_true]
+        have hm : b.toNat % 128 = b.toNat := by omega
+        rw [hm]
+        exact ⟨_, rfl⟩
+      · rename_i hb128
+        have hk' : ¬ (k + 1 ≥ 10) := by omega
+        simp only [hb128, hk', if_false]
+        have hm : b.toNat - 128 = b.toNat % 128 := by omega
+        rw [hm] at h
+        exact ih (k + 1) (7 * k + 7) _ v rest (by omega) hk8 hbound h
+
+theorem consumeVarint_skip {bs : Bytes} {v : Nat} {rest : Bytes}
+    (h : consumeVarint bs = .ok (v, rest)) :
+    ∃ n, skipReadVarint 0 0 bs = .ok (v, n, rest) ∧ n + rest.length = bs.length ∧ 0 < n := by
+  obtain ⟨n, hn⟩ := consumeVarintAux_skip bs 0 0 0 v rest (by omega) (by omega) (by simp) h
+  have := skipReadVarint_count bs 0 0 v n rest hn
+  exact ⟨n, hn, by omega, by omega⟩
+
+theorem consumeTag_skip {bs : Bytes} {num typ : Nat} {rest1 : Bytes}
+    (h : consumeTag bs = .ok (num, typ, rest1)) :
+    ∃ wire n, skipReadVarint 0 0 bs = .ok (wire, n, rest1) ∧ wire % 8 = typ ∧
+      n + rest1.length = bs.length ∧ 0 < n := by
+  unfold consumeTag at h
+  split at h
+  · rename_i v rest hv
+    simp only [] at h
+    split at h
+    · simp at h
+    · split at h
+      · simp at h
+      · simp only [Res.ok.injEq, Prod.mk.injEq] at h
+        obtain ⟨_, rfl, rfl⟩ := h
+        obtain ⟨n, hn, hl, hp⟩ := consumeVarint_skip hv
+        exact ⟨v, n, hn, rfl, hl, hp⟩
+  · simp at h
+  · simp at h
+
+/-! ## skipAfter / skipLoop basic facts -/
+
+theorem skipAfter_ne_panic (r : Bytes) (c wt d : Nat) : skipAfter r c wt d ≠ .panic := by
+  unfold skipAfter
+  have := skipReadVarint_ne_panic r 0 0
+  repeat' split
+  all_goals first | (rename_i heq; exact absurd heq this) | simp
+
+theorem skipAfter_ok {r : Bytes} {c wt d : Nat} {r2 : Bytes} {c2 d2 : Nat}
+    (h : skipAfter r c wt d = .ok (r2, c2, d2)) : c ≤ c2 ∧ r2.length ≤ r.length := by
+  unfold skipAfter at h
+  split at h
+  · split at h
+    · rename_i hv
+      have := skipReadVarint_count _ _ _ _ _ _ hv
+      simp only [Res.ok.injEq, Prod.mk.injEq] at h
+      obtain ⟨rfl, rfl, rfl⟩ := h
+      omega
+    · simp at h
+    · simp at h
+  split at h
+  · simp only [Res.ok.injEq, Prod.mk.injEq] at h
+    obtain ⟨rfl, rfl, rfl⟩ := h
+    simp only [List.length_drop]; omega
+  split at h
+  · split at h
+    · rename_i hv
+      have := skipReadVarint_count _ _ _ _ _ _ hv
+      split at h
+      · simp at h
+      · simp only [Res.ok.injEq, Prod.mk.injEq] at h
+        obtain ⟨rfl, rfl, rfl⟩ := h
+        simp only [List.length_drop]; omega
+    · simp at h
+    · simp at h
+  split at h
+  · simp only [Res.ok.injEq, Prod.mk.injEq] at h
+    obtain ⟨rfl, rfl, rfl⟩ := h
+    omega
+  split at h
+  · split at h
+    · simp at h
+    · simp only [Res.ok.injEq, Prod.mk.injEq] at h
+      obtain ⟨rfl, rfl, rfl⟩ := h
+      omega
+  split at h
+  · simp only [Res.ok.injEq, Prod.mk.injEq] at h
+    obtain ⟨rfl, rfl, rfl⟩ := h
+    simp only [List.length_drop]; omega
+  · simp at h
+
+theorem skipLoop_ne_panic (fuel : Nat) : ∀ rest c k, skipLoop fuel rest c k ≠ .panic := by
+  induction fuel with
+  | zero => intro rest c k; simp [skipLoop]
+  | succ f ih =>
+    intro rest c k
+    rw [skipLoop_succ]
+    split
+    · simp
+    · split
+      · simp
+      · rename_i heq; exact absurd heq (skipReadVarint_ne_panic _ _ _)
+      · split
+        · simp
+        · rename_i heq; exact absurd heq (skipAfter_ne_panic _ _ _ _)
+        · split
+          · simp
+          · split
+            · simp
+            · exact ih _ _ _
+
+theorem skipLoop_progress (fuel : Nat) : ∀ rest c k n, skipLoop fuel rest c k = .ok n → c < n := by
+  induction fuel with
+  | zero => intro rest c k n h; simp [skipLoop] at h
+  | succ f ih =>
+    intro rest c k n h
+    rw [skipLoop_succ] at h
+    split at h
+    · simp at h
+    · split at h
+      · simp at h
+      · simp at h
+      · rename_i wire m rest1 hv
+        have hcnt := skipReadVarint_count _ _ _ _ _ _ hv
+        split at h
+        · simp at h
+        · simp at h
+        · rename_i r2 c2 d2 ha
+          have hok := skipAfter_ok ha
+          split at h
+          · simp at h
+          · split at h
+            · simp only [Res.ok.injEq] at h; omega
+            · have := ih _ _ _ _ h; omega
+
+/-- Once the fuel covers the remaining input, its exact value is irrelevant. -/
+theorem skipLoop_fuel (F1 : Nat) : ∀ (F2 : Nat) (rest : Bytes) (c k : Nat),
+    rest.length ≤ F1 → rest.length ≤ F2 → skipLoop F1 rest c k = skipLoop F2 rest c k := by
+  induction F1 with
+  | zero =>
+    intro F2 rest c k h1 _
+    have : rest = [] := List.eq_nil_of_length_eq_zero (by omega)
+    subst this
+    cases F2 with
+    | zero => rfl
+    | succ F2 => rw [skipLoop_succ]; simp [skipLoop]
+  | succ F1 ih =>
+    intro F2 rest c k h1 h2
+    cases F2 with
+    | zero =>
+      have : rest = [] := List.eq_nil_of_length_eq_zero (by omega)
+      subst this
+      rw [skipLoop_succ]; simp [skipLoop]
+    | succ F2 =>
+      rw [skipLoop_succ, skipLoop_succ]
+      split
+      · rfl
+      · split
+        · rfl
+        · rfl
+        · rename_i wire m rest1 hv
+          have hcnt := skipReadVarint_count _ _ _ _ _ _ hv
+          split
+          · rfl
+          · rfl
+          · rename_i r2 c2 d2 ha
+            have hok := skipAfter_ok ha
+            split
+            · rfl
+            · split
+              · rfl
+              · exact ih _ _ _ _ (by omega) (by omega)
+
+/-- `skipLoop` with the canonical fuel (the remaining input length). -/
+def skipL (rest : Bytes) (c k : Nat) : Res Nat := skipLoop rest.length rest c k
+
+theorem skip_eq_skipL (bs : Bytes) : skip bs = skipL bs 0 0 := rfl
+
+/-- One iteration of the loop, in terms of `skipL`, with the byte accounting done. -/
+theorem skipL_step {bs : Bytes} {wire n : Nat} {rest1 : Bytes} {c k : Nat} {r2 : Bytes} {c2 d2 : Nat}
+    (h1 : skipReadVarint 0 0 bs = .ok (wire, n, rest1))
+    (h2 : skipAfter rest1 (c + n) (wire % 8) k = .ok (r2, c2, d2))
+    (hc : c2 < 9223372036854775808) :
+    skipL bs c k = if d2 = 0 then .ok c2 else skipL r2 c2 d2 := by
+  have hcnt := skipReadVarint_count _ _ _ _ _ _ h1
+  have hok := skipAfter_ok h2
+  have hne : bs ≠ [] := by
+    intro e; subst e; simp [skipReadVarint] at h1
+  obtain ⟨F, hF⟩ : ∃ F, bs.length = F + 1 := ⟨bs.length - 1, by omega⟩
+  unfold skipL
+  rw [hF, skipLoop_succ]
+  have hc' : ¬ (c2 ≥ 9223372036854775808) := by omega
+  simp only [hne, if_false, h1, h2, hc']
+  split
+  · rfl
+  · exact skipLoop_fuel _ _ _ _ _ (by omega) (Nat.le_refl _)
+
+/-! ## protowire record structure vs. the flat depth counter of `Skip` -/
+
+theorem skipAfter_varint {r : Bytes} {v m : Nat} {r' : Bytes} (c k : Nat)
+    (h : skipReadVarint 0 0 r = .ok (v, m, r')) : skipAfter r c 0 k = .ok (r', c + m, k) := by
+  simp [skipAfter, h]
+
+theorem skipAfter_bytes {r : Bytes} {v m : Nat} {r' : Bytes} (c k : Nat)
+    (h : skipReadVarint 0 0 r = .ok (v, m, r')) (hv : v < 9223372036854775808) :
+    skipAfter r c 2 k = .ok (r'.drop v, c + m + v, k) := by
+  have : ¬ (v ≥ 9223372036854775808) := by omega
+  simp [skipAfter, h, this]
+
+/-- Main invariant: a protowire value (resp. group body) accepted by `consumeValue`
+    (resp. `consumeGroup`) is walked by `Skip`'s loop, at any current depth `k`, ending exactly at the
+    same remaining input, with `iNdEx` advanced by the number of bytes protowire consumed. -/
+theorem skip_consume (f : Nat) :
+    (∀ d num typ (bs rest1 rest2 : Bytes) c, consumeTag bs = .ok (num, typ, rest1) →
+      consumeValue f d num typ rest1 = .ok rest2 → c + bs.length < 9223372036854775808 →
+      rest2.length < bs.length ∧ ∀ k, skipL bs c k =
+        if k = 0 then .ok (c + (bs.length - rest2.length))
+        else skipL rest2 (c + (bs.length - rest2.length)) k) ∧
+    (∀ d num (bs rest : Bytes) c, consumeGroup f d num bs = .ok rest →
+      c + bs.length < 9223372036854775808 →
+      rest.length < bs.length ∧ ∀ k, skipL bs c (k + 1) =
+        if k = 0 then .ok (c + (bs.length - rest.length))
+        else skipL rest (c + (bs.length - rest.length)) k) := by
+  induction f with
+  | zero =>
+    refine ⟨?_, ?_⟩
+    · intro d num typ bs rest1 rest2 c _ hv; simp [consumeValue] at hv
+    · intro d num bs rest c hg; simp [consumeGroup] at hg
+  | succ f ih =>
+    obtain ⟨ihV, ihG⟩ := ih
+    refine ⟨?_, ?_⟩
+    · intro d num typ bs rest1 rest2 c ht hv hc
+      obtain ⟨wire, n, h1, hw, hlen, hn⟩ := consumeTag_skip ht
+      rw [consumeValue] at hv
+      split at hv
+      · -- wire type 0: varint
+        rename_i ht0
+        split at hv
+        · rename_i v r hcv
+          simp only [Res.ok.injEq] at hv; subst hv
+          obtain ⟨m, hm, hml, hmp⟩ := consumeVarint_skip hcv
+          refine ⟨by omega, fun k => ?_⟩
+          have h2 : skipAfter rest1 (c + n) (wire % 8) k = .ok (r, c + n + m, k) := by
+            rw [hw, ht0]; exact skipAfter_varint _ _ hm
+          have hstep := skipL_step h1 h2 (by omega)
+          have e : c + n + m = c + (bs.length - r.length) := by omega
+          rw [e] at hstep; exact hstep
+        · simp at hv
+        · simp at hv
+      split at hv
+      · -- wire type 5: fixed32
+        rename_i ht5
+        split at hv
+        · simp at hv
+        · rename_i hl4
+          simp only [Res.ok.injEq] at hv; subst hv
+          have hdl : (rest1.drop 4).length = rest1.length - 4 := List.length_drop
+          refine ⟨by omega, fun k => ?_⟩
+          have h2 : skipAfter rest1 (c + n) (wire % 8) k = .ok (rest1.drop 4, c + n + 4, k) := by
+            rw [hw, ht5]; simp [skipAfter]
+          have hstep := skipL_step h1 h2 (by omega)
+          have e : c + n + 4 = c + (bs.length - (rest1.drop 4).length) := by omega
+          rw [e] at hstep; exact hstep
+      split at hv
+      · -- wire type 1: fixed64
+        rename_i ht1
+        split at hv
+        · simp at hv
+        · rename_i hl8
+          simp only [Res.ok.injEq] at hv; subst hv
+          have hdl : (rest1.drop 8).length = rest1.length - 8 := List.length_drop
+          refine ⟨by omega, fun k => ?_⟩
+          have h2 : skipAfter rest1 (c + n) (wire % 8) k = .ok (rest1.drop 8, c + n + 8, k) := by
+            rw [hw, ht1]; simp [skipAfter]
+          have hstep := skipL_step h1 h2 (by omega)
+          have e : c + n + 8 = c + (bs.length - (rest1.drop 8).length) := by omega
+          rw [e] at hstep; exact hstep
+      split at hv
+      · -- wire type 2: length-delimited
+        rename_i ht2
+        split at hv
+        · rename_i v r hcv
+          split at hv
+          · simp at hv
+          · rename_i hvl
+            simp only [Res.ok.injEq] at hv; subst hv
+            obtain ⟨m, hm, hml, hmp⟩ := consumeVarint_skip hcv
+            have hdl : (r.drop v).length = r.length - v := List.length_drop
+            refine ⟨by omega, fun k => ?_⟩
+            have h2 : skipAfter rest1 (c + n) (wire % 8) k = .ok (r.drop v, c + n + m + v, k) := by
+              rw [hw, ht2]; exact skipAfter_bytes _ _ hm (by omega)
+            have hstep := skipL_step h1 h2 (by omega)
+            have e : c + n + m + v = c + (bs.length - (r.drop v).length) := by omega
+            rw [e] at hstep; exact hstep
+        · simp at hv
+        · simp at hv
+      split at hv
+      · -- wire type 3: start group
+        rename_i ht3
+        split at hv
+        · simp at hv
+        · obtain ⟨hlt, hG⟩ := ihG _ _ _ _ (c + n) hv (by omega)
+          refine ⟨by omega, fun k => ?_⟩
+          have h2 : skipAfter rest1 (c + n) (wire % 8) k = .ok (rest1, c + n, k + 1) := by
+            rw [hw, ht3]; simp [skipAfter]
+          have hstep := skipL_step h1 h2 (by omega)
+          rw [hstep, if_neg (by omega), hG k]
+          have e : c + n + (rest1.length - rest2.length) = c + (bs.length - rest2.length) := by
+            omega
+          rw [e]
+      split at hv
+      · simp at hv
+      · simp at hv
+    · intro d num bs rest c hg hc
+      rw [consumeGroup] at hg
+      split at hg
+      · rename_i num2 typ2 rest1 ht
+        obtain ⟨wire, n, h1, hw, hlen, hn⟩ := consumeTag_skip ht
+        split at hg
+        · -- end group
+          rename_i ht4
+          split at hg
+          · simp only [Res.ok.injEq] at hg; subst hg
+            refine ⟨by omega, fun k => ?_⟩
+            have h2 : skipAfter rest1 (c + n) (wire % 8) (k + 1) = .ok (rest1, c + n, k) := by
+              rw [hw, ht4]; simp [skipAfter]
+            have hstep := skipL_step h1 h2 (by omega)
+            have e : c + n = c + (bs.length - rest1.length) := by omega
+            rw [e] at hstep; exact hstep
+          · simp at hg
+        · split at hg
+          · rename_i rest2 hval
+            obtain ⟨hlt2, hV⟩ := ihV _ _ _ _ _ _ c ht hval hc
+            obtain ⟨hlt, hG⟩ := ihG _ _ _ _ (c + (bs.length - rest2.length)) hg (by omega)
+            refine ⟨by omega, fun k => ?_⟩
+            rw [hV (k + 1), if_neg (by omega), hG k]
+            have e : c + (bs.length - rest2.length) + (rest2.length - rest.length)
+                = c + (bs.length - rest.length) := by omega
+            rw [e]
+          · simp at hg
+          · simp at hg
+      · simp at hg
+      · simp at hg
+
+theorem skip_len_of_consumeField (bs : Bytes) (n : Nat) (hl : bs.length < 9223372036854775808)
+    (h : consumeField bs = .ok n) : skip bs = .ok n := by
+  unfold consumeField at h
+  split at h
+  · rename_i num typ rest ht
+    split at h
+    · rename_i rest2 hv
+      simp only [Res.ok.injEq] at h; subst h
+      obtain ⟨_, hV⟩ := (skip_consume _).1 _ _ _ _ _ _ 0 ht hv (by omega)
+      rw [skip_eq_skipL, hV 0]; simp
+    · simp at h
+    · simp at h
+  · simp at h
+  · simp at h
+
+theorem skip_ne_panic (bs : Bytes) : skip bs ≠ .panic := skipLoop_ne_panic _ _ _ _
+
+theorem skip_progress (bs : Bytes) (n : Nat) (h : skip bs = .ok n) : 0 < n := by
+  have := skipLoop_progress _ _ _ _ _ h; omega
+
 end Pulsar
